@@ -262,7 +262,7 @@ def run(ctx, pid, rounds):
     tmpdir = tempfile.mkdtemp(prefix="vf-par-")
     try:
         for fam in BY_PROPERTY[pid]:
-            for i in range(rounds):
+            for i in range(rounds * {"validator": 4, "region": 2, "formatter": 2, "file": 2}.get(fam, 1)):
                 one_round(ctx, fam, rng.getrandbits(32), tmpdir, real=(i % 4 == 0))
     finally:
         shutil.rmtree(tmpdir, ignore_errors=True)
